@@ -260,6 +260,9 @@ func (m *monitors) checkPublishes(r *run, dts map[string]*dtInfo) {
 				}
 				var maxS uint64
 				for _, so := range di.ops {
+					if by, known := r.insertedBy[so.doc.ID]; known && by != callOwner(c) {
+						continue // another request of the same client (sent later, served earlier) stored it
+					}
 					if mine[opKey(so.op)] && content[opKey(so.op)] == canonOp(so.op) && !snap[so.doc.ID] && so.op.ID.GetCUID() == req.Cuid {
 						if so.doc.Sseq > maxS {
 							maxS = so.doc.Sseq
